@@ -91,6 +91,21 @@ CHECKS = {
     technique='explicit-state exploration: stepper called at every state x input and breadth-first over all admissible input sequences to depth 4; assemblies explored over all orders of colliding component menus',
     text='AutomatonStepper over synthesized implementations: every state/input answered against the action table (values or ValueError), BFS over all environment sequences; Assembly with mock, Scheduler and real stepper components whose names collide on purpose: local states, mangling, and every recorded step.',
     note='AutomatonStepper.init returns only the variables its pick assigns; assemblies are driven with initial conditions that mention every component variable'),
+ 'C12': dict(
+    category='model_checking', design='4/C12',
+    technique='explicit-state checking of the returned graph: every node and edge against the action tables, input completeness at every node, SCC fair-cycle criterion, edges re-confirmed through Context.let',
+    text='action_to_steps on synthesized Streett/Rabin implementations (4 qinit forms rotating) and hand-made (init, action) pairs x 4 forms x Moore/Mealy: node uniqueness, initial nodes per form, every edge allowed by both actions, exactly one edge per admissible next environment value at every node, liveness on all cycles.',
+    note='premise of the enumerator: the environment action does not read the component\'s next values (such games are skipped and counted); blocking implementations (finding F13) are skipped'),
+ 'C17': dict(
+    category='model_checking', design='4/C17',
+    technique='explicit operation-sequence exploration (all event sequences up to a depth bound on fresh objects) against a reference model that stores truth tables, on 2 back ends x 2 translators',
+    text='All sequences up to length 3 (thorough 4) over a 19-event alphabet of context operations, and all sequences up to length 5 (6) over a 10-event alphabet around the expression cache, ending in observations: earlier results keep their tables, repeated operations agree, every printed init/action expression evaluates to the BDD it labels.',
+    note='no state merging is used for pruning (hidden state is the subject); states are only counted'),
+ 'C20': dict(
+    category='exploration', design='4/C20',
+    technique='bounded exhaustive enumeration of labelled graphs (all edge subsets / all label assignments on small node sets) compared with the produced action over all valuations',
+    text='All unlabelled edge subsets on {0},{0,1},{0,2},{0,1,2}; all assignments of 5 labels to the node pairs of {0,1}; parallel edges; node labels; both owners, self_loops, ignore_initial, initial sets: owner action, initial condition and the other player\'s action compared pointwise with the graph.',
+    note='receptive=True only exercised for the owner\'s action (its assumptions are not specified by the property)'),
 }
 
 NOT_YET = 'check not built yet in this session (design in DESIGN.md section 4); will be claimed once its machinery runs clean on the unchanged tree'
